@@ -3,6 +3,15 @@
   Property theorems only (helper lemmas in Lemmas/).
   Spec encodings are written out by hand here from the NxScope protocol:
     start [b] · cmninfo [] · chinfo [c] · set single [0,c,v] · all [2,0,v] · bulk 1 :: 0 :: vs
+  Assumption (typing of the API, second review R4-B-LOW): an enable vector is a `list[bool]` of REAL
+  bools — `Ask` / `SetReq Bool` / `List Bool` below cannot express anything else, and the
+  correspondence cases pass real bools only.  `Parser.frame_enable` tests `enable[c] is True`, so a
+  vector of ints is outside the statements: `frame_enable([1,0,1], 3)` emits the bulk request
+  `01 00 00 00 00` (every channel OFF) while `[1,1,1]` emits ALL=1 (every channel ON); the meaning of
+  an int-valued vector depends on the form that is picked.  Known behaviour of /repo, not covered.
+  The device side of the histories (`devRun`) is what `intf/dummy.py::DummyDev._enable_cb/_div_cb` do
+  (decode against the device's current vectors, store per channel); the check executes that file
+  itself in the `sess dummy` sessions (real CommHandler against the real DummyDev).
 -/
 import NxsModel.Requests
 import NxsModel.ReqSession
